@@ -110,10 +110,18 @@ CLAIMED = {
    text="TLC enumerates the extended annotation grammar (28 extension leaves -- Any, object, bare builtin/typing generics, free/bound/constrained TypeVars, Callable forms, type[X], bare and parameterised user generics, classes without hints -- under 11 constructors incl. two variadic tuples and class fields; depth 2 over all leaves in thorough) and the ordinary universe; for each annotation the three factories must return without error or non-termination, a sentinel object placed at every reachable pass-through position must come back identical through unmarshal and marshal, and rebuilding (memoised, and after clearing every cache) must give the same behaviour; TLC validates each build event.",
    ref="DESIGN.md section 4 C15",
    note="Trusted: TLC; the probe construction in the harness. Termination of graph construction itself is proved on the Graph model (C09/C07)."),
+ "C14": dict(
+   engine="Carriers",
+   technique="TLA+ spec Carriers.tla (load() with its memo as state over texts x carriers, LoadRef) checked exhaustively by TLC; real unmarshal/load/strload/decode over texts x 5 carriers x the type universe validated by TLC trace spec Carriers_Trace.tla with stdlib json/ast facts",
+   level="model_checking",
+   text="TLC explores every load() history over a text pool in the five carriers with the LRU memo as a state variable and checks carrier-freedom and agreement with LoadRef (and shows that memoising on the carrier object violates it). On the real code, every type of the TLC universe is fed the same text in str/bytes/bytearray/memoryview(bytes)/memoryview(bytearray) and TLC requires equal outcomes or rejection by all; load/strload/decode are run over ~80 adversarial texts with facts from the standard json and ast modules; JSON text, literal text and the decoded wire value must unmarshal alike for collection, mapping and structured types.",
+   ref="DESIGN.md section 4 C14",
+   note="Trusted: TLC; stdlib json (strict) and ast.literal_eval as fact sources; texts where strict and lenient JSON decoders disagree are excluded."),
 }
 NOT_BUILT = "check not built yet (build in progress; see DESIGN.md section 7 build order)"
 
 ENGINES = {
+ "Carriers": dict(path="spec/Carriers.tla", kind="TLA+ spec + TLC (exhaustive histories, trace validation) + harness/drivers/c14.py"),
  "Member": dict(path="spec/Member_Trace.tla", kind="TLA+ trace spec over Terms/Wire + harness/drivers c05 c07 c11 c15"),
  "Graph": dict(path="spec/Graph.tla", kind="TLA+ spec + TLC (exhaustive incl. liveness, topology emission, trace validation) + harness/drivers/c09.py"),
  "Wire": dict(path="spec/Wire.tla", kind="TLA+ specs Terms.tla/Wire.tla/Wire_Trace.tla + TLC (universe enumeration, trace validation) + harness/valuestream.py, harness/typeterms.py, drivers c01 c03 c06 c13"),
